@@ -248,16 +248,18 @@ def skey(name, labels, value, ts):
 
 
 def f2_names(metrics):
-    """legacy-looking names ending in a newline (F2 class)"""
+    """legacy-looking names ending in a newline that the library itself still classifies as legacy names, i.e. writes bare
+    (F2 class; once the patterns end in \\Z this finds nothing)"""
+    from prometheus_client import validation as V
     hits = []
     for m in metrics:
         cands = [('metric', m.name)] + [('sample', s.name) for s in m.samples]
         for kind, x in cands:
-            if x.endswith('\n') and LEG_METRIC.fullmatch(x[:-1]):
+            if x.endswith('\n') and LEG_METRIC.fullmatch(x[:-1]) and V._is_valid_legacy_metric_name(x):
                 hits.append((kind, x))
         for s in m.samples:
             for k in s.labels:
-                if k.endswith('\n') and LEG_LABEL.fullmatch(k[:-1]):
+                if k.endswith('\n') and LEG_LABEL.fullmatch(k[:-1]) and V._is_valid_legacy_labelname(k):
                     hits.append(('label', k))
     return hits
 
